@@ -559,6 +559,90 @@ func stringConst(f *ast.File, name string) string {
 	return s
 }
 
+// sigPolicy describes how a function of crlrepository.go applies signature_validation_mode:
+//   guardNone: verification is skipped under SignatureValidationModeNone
+//   fatal: "verify_only" (a verification failure ends the intake only under ...ModeVerify),
+//          "always", "never"
+func sigPolicy(f *ast.File, fn string) (guardNone bool, fatal string) {
+	fd := findFunc(f, fn)
+	var verifyIf *ast.IfStmt
+	found := false
+	// locate the call of verifyCRLSignature and the enclosing guard
+	var walk func(n ast.Node, guarded bool)
+	walk = func(n ast.Node, guarded bool) {
+		ast.Inspect(n, func(m ast.Node) bool {
+			if m == n {
+				return true
+			}
+			switch x := m.(type) {
+			case *ast.IfStmt:
+				g := guarded
+				if be, ok := x.Cond.(*ast.BinaryExpr); ok && be.Op == token.NEQ && selName(be.X) == "SignatureValidationModeParsed" && selName(be.Y) == "SignatureValidationModeNone" {
+					g = true
+				}
+				walk(x.Body, g)
+				if x.Else != nil {
+					walk(x.Else, guarded)
+				}
+				return false
+			case *ast.AssignStmt:
+				if len(x.Rhs) == 1 {
+					if ce, ok := x.Rhs[0].(*ast.CallExpr); ok && selName(ce.Fun) == "verifyCRLSignature" {
+						if found {
+							die("%s: verifyCRLSignature is called more than once", fn)
+						}
+						found = true
+						guardNone = guarded
+					}
+				}
+			}
+			return true
+		})
+	}
+	walk(fd.Body, false)
+	if !found {
+		die("%s: no call of verifyCRLSignature", fn)
+	}
+	// the `if <err> != nil` that follows it
+	ast.Inspect(fd.Body, func(m ast.Node) bool {
+		ifs, ok := m.(*ast.IfStmt)
+		if !ok || verifyIf != nil {
+			return true
+		}
+		if be, ok := ifs.Cond.(*ast.BinaryExpr); ok && be.Op == token.NEQ && selName(be.Y) == "nil" && (selName(be.X) == "verifyErr") {
+			verifyIf = ifs
+		}
+		return true
+	})
+	if verifyIf == nil {
+		die("%s: no `if verifyErr != nil` after verifyCRLSignature", fn)
+	}
+	fatal = "never"
+	for _, st := range verifyIf.Body.List {
+		switch x := st.(type) {
+		case *ast.ReturnStmt:
+			fatal = "always"
+		case *ast.IfStmt:
+			be, ok := x.Cond.(*ast.BinaryExpr)
+			hasRet := false
+			ast.Inspect(x.Body, func(k ast.Node) bool {
+				if _, ok := k.(*ast.ReturnStmt); ok {
+					hasRet = true
+				}
+				return true
+			})
+			if ok && be.Op == token.EQL && selName(be.X) == "SignatureValidationModeParsed" && selName(be.Y) == "SignatureValidationModeVerify" && hasRet {
+				if fatal == "never" {
+					fatal = "verify_only"
+				}
+			} else if hasRet {
+				die("%s: unknown condition guards the return after a failed verification", fn)
+			}
+		}
+	}
+	return guardNone, fatal
+}
+
 func main() {
 	if len(os.Args) != 3 {
 		die("usage: srcfacts <repo> <out.v>")
@@ -763,6 +847,12 @@ func main() {
 			die("createRandomFileName: expected prefix and suffix literals")
 		}
 		fmt.Fprintf(&out, "Definition temp_dir_prefix : string := %s.\nDefinition temp_dir_suffix : string := %s.\n", coqStr(parts[0]), coqStr(parts[1]))
+	}
+
+	// signature policy of the two CRL intake paths (first load / refresh)
+	for _, fn := range []string{"loadCRL", "updateCrlEntry"} {
+		guardNone, fatal := sigPolicy(rp, fn)
+		fmt.Fprintf(&out, "Definition sigpolicy_%s : bool * string := (%v, %s).\n", fn, guardNone, coqStr(fatal))
 	}
 
 	if err := os.WriteFile(os.Args[2], []byte(out.String()), 0644); err != nil {
